@@ -46,6 +46,7 @@ type Profile struct {
 	PSplitSnapshot                                                               float64
 	PZeroMsgSize                                                                 float64 // MaxSizePerMsg=0 together with MaxCommittedSizePerReady=0
 	PUniform                                                                     float64 // group-wide PreVote/CheckQuorum/ElectionTick
+	PCrashUndurableTerm                                                          float64 // crash a leader/candidate whose current term is not durable yet
 	ShortElection                                                                bool
 	AggressiveCompaction                                                         bool
 	HeavyProposals                                                               bool
@@ -389,6 +390,20 @@ func (g *Gen) after() {
 		gn := g.gn[id]
 		if !n.up {
 			continue
+		}
+		// targeted: a leader (or candidate) whose term/vote is not on disk yet
+		if g.p.PCrashUndurableTerm > 0 && n.st.State != raft.StateFollower && n.disk.dur.hs.GetTerm() < n.st.Term && g.allow("crash") && c.viol == nil {
+			pc := g.p.PCrashUndurableTerm
+			if n.st.State == raft.StateLeader {
+				pc *= 4
+			}
+			if chance(g.rng, pc) {
+				c.stats.probe("crash_with_undurable_term")
+				g.do(Action{K: ACrash, N: id, I: 0, J: 0})
+				down := int64((0.2 + 1.5*g.rng.Float64()) * float64(n.cfg.ElectionTick) * tickUnit)
+				g.schedule(&event{at: g.now + down, kind: evRestart, n: id})
+				continue
+			}
 		}
 		if !gn.pumpScheduled && g.needsPump(n) {
 			gn.pumpScheduled = true
